@@ -50,6 +50,11 @@ func (e *Engine) loopHead(st *State, fr *Frame, li *loopInfo) (stop bool) {
 			g := ctx.evalBool(inv.E)
 			e.oblige(st, "inv-pres", loopLabel(li.ord, inv, i), -1, g, "loop invariant preserved: "+inv.Text, li.pos)
 		}
+		if ri := rangeIndexCell(fr, li); ri != nil {
+			if cv, ok := st.cellv[ri].(VInt); ok {
+				e.oblige(st, "inv-pres", fmt.Sprintf("loop%d.rangeindex", li.ord), -1, Eq(cv.T, Sub(next, One)), "range index equals #iter-1", li.pos)
+			}
+		}
 		if ls.Decreases != nil {
 			nv := mk(next).evalInt(ls.Decreases)
 			e.oblige(st, "variant", fmt.Sprintf("loop%d", li.ord), -1, And(Ge(lc.variant, Zero), Lt(nv, lc.variant)), "loop variant decreases and is bounded below", li.pos)
@@ -63,7 +68,7 @@ func (e *Engine) loopHead(st *State, fr *Frame, li *loopInfo) (stop bool) {
 	}
 	for i, inv := range ls.Invs {
 		g := ctx0.evalBool(inv.E)
-		e.oblige(st, "inv-init", loopLabel(li.ord, inv, i), -1, g, "loop invariant holds on entry: "+inv.Text, li.pos)
+		e.obligeNoAssume(st, "inv-init", loopLabel(li.ord, inv, i), -1, g, "loop invariant holds on entry: "+inv.Text)
 	}
 	// havoc cells assigned in the loop
 	for _, a := range li.stored {
@@ -95,6 +100,10 @@ func (e *Engine) loopHead(st *State, fr *Frame, li *loopInfo) (stop bool) {
 	ctx := mk(iter)
 	for _, u := range ls.Unfolds {
 		ctx.unfold(u)
+	}
+	if ri := rangeIndexCell(fr, li); ri != nil {
+		// range-over-slice loops: the hidden index equals #iter-1 at the loop head (before its increment)
+		st.cellv[ri] = VInt{Sub(iter, One)}
 	}
 	for _, inv := range ls.Invs {
 		st.assume(ctx.evalBool(inv.E))
@@ -202,4 +211,19 @@ func (e *Engine) frameCheckRegion(st *State, fr *Frame, elem types.Type, obj, lo
 
 func (e *Engine) lockCheckRead(st *State, fr *Frame, l *Loc, in ssa.Instruction) {
 	e.lockCheck(st, fr, l, false, in)
+}
+
+// rangeIndexCell finds the hidden index cell of a range-over-slice loop (NaiveForm: alloc "rangeindex").
+func rangeIndexCell(fr *Frame, li *loopInfo) *Cell {
+	for _, a := range li.stored {
+		if a.Comment == "rangeindex" {
+			// its increment sits in the loop head
+			for _, in := range li.head.Instrs {
+				if s, ok := in.(*ssa.Store); ok && s.Addr == a {
+					return fr.cells[a]
+				}
+			}
+		}
+	}
+	return nil
 }
